@@ -34,6 +34,11 @@ u64 _ZNSt7__cxx116stoullERKNS_12basic_stringIcSt11char_traitsIcESaIcEEEPmi(u8* s
   if (end == GS(s)->p) { vp_throw_std(_ZTISt16invalid_argument); return 0; }
   if (vp_errno == 34) { vp_throw_std(_ZTISt12out_of_range); return 0; }
   if (pos) *(u64*)pos = (u64)(end - GS(s)->p); return v; }
+u64 _ZNSt7__cxx115stollERKNS_12basic_stringIcSt11char_traitsIcESaIcEEEPmi(u8* s, u8* pos, u32 base) {   /* std::stoll: same scanner, signed range */
+  u8* end = 0; vp_errno = 0; u64 v = vp_strtox(GS(s)->p, &end, base, 1);
+  if (end == GS(s)->p) { vp_throw_std(_ZTISt16invalid_argument); return 0; }
+  if (vp_errno == 34) { vp_throw_std(_ZTISt12out_of_range); return 0; }
+  if (pos) *(u64*)pos = (u64)(end - GS(s)->p); return v; }
 static gos_t os1, os2; static u8 hdr1[16] __attribute__((aligned(8))), hdr2[16] __attribute__((aligned(8)));
 static void same_text(void) { __CPROVER_assert(os1.len == os2.len, "writing the parsed header again yields text of the same length"); for (u64 i = 0; i < VP_OSMAX; i++) if (i < os1.len && os1.len == os2.len) __CPROVER_assert(os1.log[i] == os2.log[i], "writing the parsed header again yields identical text"); }
 int main(void) {
